@@ -60,6 +60,14 @@ fn gen_case(seed: u64, i: u64, thorough: bool) -> Case {
         let kind = ["ds", "ds", "tok", "lazy", "tokflex"][which as usize];
         return Case { kind: kind.into(), arg: ts.into(), muts, data: body };
     }
+    if i % 31 == 5 {
+        // structural tokens in disorder: the reader state machines off the beaten track
+        let implicit = r.chance(1, 2);
+        let ts = if implicit { objs::IMPLICIT_LE } else { objs::EXPLICIT_LE };
+        let kind = *r.pick(&["lazy", "lazy", "tok", "tokflex", "ds"]);
+        muts.push("soup");
+        return Case { kind: kind.into(), arg: ts.into(), muts, data: seeds::delimiter_soup(r, implicit) };
+    }
     match r.below(100) {
         0..=24 => {
             let (mut d, ts) = seeds::file_seed(r);
@@ -136,7 +144,19 @@ fn gen_case(seed: u64, i: u64, thorough: bool) -> Case {
                 d.extend(seeds::pdu_seed(r));
             }
             for _ in 0..nmut {
-                muts.push(seeds::mutate_binary(r, &mut d, true));
+                if d.len() >= 6 && r.chance(1, 3) {
+                    // the PDU length (or an item length) becomes a small number: bodies around the
+                    // sizes of the fixed parts (4, 6, 68 bytes)
+                    let v = *r.pick(&[0u32, 1, 2, 3, 4, 5, 6, 35, 36, 37, 67, 68, 69, 70, 74]);
+                    let v = if r.chance(1, 2) { v } else { r.below(100) as u32 };
+                    d[2..6].copy_from_slice(&v.to_be_bytes());
+                    muts.push("pdu-length");
+                    if r.chance(1, 2) {
+                        d.truncate(6 + v as usize);
+                    }
+                } else {
+                    muts.push(seeds::mutate_binary(r, &mut d, true));
+                }
             }
             let arg = format!("{}{}", if r.chance(1, 2) { "s" } else { "l" }, r.pick(&[16384u32, 4096, 1018, 100, 4294967288]));
             Case { kind: "pdu".into(), arg, muts, data: d }
@@ -207,7 +227,8 @@ fn gen_case(seed: u64, i: u64, thorough: bool) -> Case {
             Case { kind: kind.into(), arg: format!("{},{},{},{},{},{}", ts, rows, cols, spp, bits, frames), muts, data: d }
         }
         _ => {
-            let which = *r.pick(seeds::TEXT_KINDS);
+            // the tag parser is behind three of the entry points: give it a third of the text cases
+            let which = if r.chance(1, 3) { "tag" } else { *r.pick(seeds::TEXT_KINDS) };
             let mut d = seeds::text_seed(r, which);
             for _ in 0..nmut {
                 muts.push(seeds::mutate_text(r, &mut d));
@@ -348,11 +369,26 @@ fn main() {
             match w.rx.recv_timeout(budget) {
                 Ok(l) => l,
                 Err(RecvTimeoutError::Timeout) => {
+                    // the machine is shared: give the case a second, longer chance before calling it a hang
                     let _ = w.child.kill();
                     let _ = w.child.wait();
                     let st = last_stage(&std::fs::read_to_string(&w.errfile).unwrap_or_default());
                     w = spawn_worker();
-                    format!("{}:hang", st)
+                    let again = writeln!(w.stdin, "{} {} {}", c.kind, c.arg, hexd).and_then(|_| w.stdin.flush());
+                    match (again, w.rx.recv_timeout(budget * 4)) {
+                        (Ok(()), Ok(l)) => l,
+                        (Ok(()), Err(RecvTimeoutError::Disconnected)) => {
+                            let d = how_died(&mut w);
+                            w = spawn_worker();
+                            d
+                        }
+                        _ => {
+                            let _ = w.child.kill();
+                            let _ = w.child.wait();
+                            w = spawn_worker();
+                            format!("{}:hang", st)
+                        }
+                    }
                 }
                 Err(RecvTimeoutError::Disconnected) => {
                     let d = how_died(&mut w);
